@@ -389,6 +389,8 @@ def shot_noise(img, method='poisson', seed=None):
                 raise e
     else:
         # REF: https://stackoverflow.com/a/33701974
+        if np.min(img) < 0:
+            raise ValueError('Counts must be positive')
         with np.errstate(divide='raise'):
             try:
                 img = np.asarray(rng.normal(loc=img, scale=np.sqrt(img)), dtype=int)
